@@ -79,6 +79,13 @@ impl Key {
             .to_string()
     }
 
+    /// false for the keys of urls that name the library or a directory (the empty url, `/`, `..`)
+    pub fn names_a_note(&self) -> bool {
+        RelativePath::new(self.relative_path.as_str())
+            .file_name()
+            .is_some()
+    }
+
     pub fn to_library_url(&self) -> String {
         self.relative_path.to_string()
     }
